@@ -412,6 +412,46 @@ def addressable(repo: Repo) -> RuleRun:
 
 addressable.rule_id = "C19.ADDRESSABLE"
 
+def partition_lists(repo: Repo) -> RuleRun:
+    """'For round shapes the core and shell lists partition the operations': the shapes take them from their sketch -
+    `operations[: len(sketch.core)]` - so the `core` and `shell` of every sketch class are sequences; a ring has an EMPTY core.
+    A member that answers the constant None (the spline rings did) makes `RoundHollowShape(ring).core` a TypeError while
+    `Annulus` answers []. Every definition of `core` / `shell` in a Sketch subclass (property or attribute set by a constructor)
+    is classified by what it returns / is assigned."""
+    r = RuleRun(PROP, "C19.PARTITION-LISTS", floor=8, what="every `core` / `shell` member of a sketch class is a sequence (a ring's core is the empty list, never None)")
+    base = repo.cls("construct.flat.sketch.Sketch")
+    n = 0
+    for cls in sorted(repo.subclasses(base, strict=False), key=lambda c: c.qualname):
+        for member in ("core", "shell"):
+            values = []
+            fn = cls.methods.get(member)
+            if fn is not None:
+                values += [(fn, x.value) for x in ast.walk(fn.node) if isinstance(x, ast.Return)]
+            for m in cls.methods.values():
+                for st in ast.walk(m.node):
+                    tgts = st.targets if isinstance(st, ast.Assign) else [st.target] if isinstance(st, ast.AnnAssign) and st.value is not None else []
+                    for t in tgts:
+                        if isinstance(t, ast.Attribute) and t.attr == member and isinstance(t.value, ast.Name) and t.value.id == "self":
+                            values.append((m, st.value))
+            for k, (where, v) in enumerate(values):
+                n += 1
+                none = v is None or (isinstance(v, ast.Constant) and v.value is None)
+                r.check(
+                    not none,
+                    where,
+                    f"{cls.name}.{member} is '{ast.unparse(v)[:40] if v is not None else 'None'}'",
+                    f"{cls.qualname}.{member} answers None: the shapes built on this sketch slice their operations with len(sketch.{member}) - RoundHollowShape(<this sketch>, ...).core raises "
+                    "TypeError ('NoneType' has no len()), while Annulus, the other ring sketch, answers the empty list",
+                    where.node,
+                    key=f"{cls.name}.{member}#{k}",
+                )
+    r.require(n >= 8, f"only {n} definitions of core / shell found in the sketch classes")
+    return r
+
+
+partition_lists.rule_id = "C19.PARTITION-LISTS"
+
+
 def scalar_amount(repo: Repo) -> RuleRun:
     """'tier k = the base moved k times along the normal': the number-or-vector test of Extrude / ExtrudedShape / ExtrudedStack accepts every scalar."""
     from ..params import scalar_dispatch_rule
@@ -490,4 +530,4 @@ def no_shared_containers(repo: Repo) -> RuleRun:
 no_shared_containers.rule_id = "C19.NO-SHARED-CONTAINERS"
 
 
-RULES = [grid_roles, slice_roles, partition, merged_roles, assemble_walk, backport_local, delete_survives, tier_order, no_class_state, addressable, scalar_amount, stack_chain, arguments_untouched, private_coordinates, no_shared_containers]
+RULES = [grid_roles, slice_roles, partition, merged_roles, assemble_walk, backport_local, delete_survives, tier_order, no_class_state, addressable, scalar_amount, stack_chain, arguments_untouched, private_coordinates, no_shared_containers, partition_lists]
